@@ -818,6 +818,68 @@ func (e *vC04Env) runConcurrent(c *vC04Case, hi int) {
 	}
 }
 
+// runDisplaced: the key of a transaction that lost its input to a rival stays bound to it.
+func (e *vC04Env) runDisplaced(i int) {
+	r, rng := e.r, e.rng
+	in := e.takeOut()
+	ins := []*verifgen.Out{in}
+	specA := e.spec(1000)
+	a := verifgen.SignMap(verifgen.BuildTx(e.asset, ins, []verifgen.OutSpec{specA}, []byte("a"), nil), ins, verifgen.FirstN(ins))
+	ts := e.sim.NextTime(1)
+	if err := e.sim.Admit(a, ts); err != nil {
+		r.Count("displaced_setup_first_owner_not_admitted", 1)
+		return
+	}
+	key := *a.Outputs[0].Keys[0]
+	ah := a.PayloadHash()
+	if owner, _ := e.store.ReadGhostKeyLock(key); owner == nil || *owner != ah {
+		r.Count("displaced_setup_key_not_reserved", 1)
+		return
+	}
+	b := verifgen.SignMap(verifgen.BuildTx(e.asset, ins, []verifgen.OutSpec{e.spec(1000)}, []byte("b"), nil), ins, verifgen.FirstN(ins))
+	if err := e.sim.AdmitFinal(b, ts); err != nil {
+		r.Count("displaced_setup_rival_not_admitted", 1)
+		return
+	}
+	finalized := false
+	if rng.Intn(2) == 0 {
+		if _, _, err := e.sim.Finalize([]*common.VersionedTransaction{b}, ts); err == nil {
+			finalized = true
+		}
+	}
+	if body, _, _ := e.store.ReadTransaction(ah); body != nil {
+		r.Count("displaced_first_owner_body_still_present", 1)
+	}
+	// C: a fresh input, its output carries A's key
+	in2 := e.takeOut()
+	ins2 := []*verifgen.Out{in2}
+	raw := verifgen.BuildTx(e.asset, ins2, nil, []byte("c"), nil)
+	ao := a.Outputs[0]
+	raw.Outputs = append(raw.Outputs, &common.Output{Type: common.OutputTypeScript, Amount: in2.Amount, Keys: ao.Keys, Mask: ao.Mask, Script: ao.Script})
+	c := verifgen.SignMap(raw, ins2, verifgen.FirstN(ins2))
+	ch := c.PayloadHash()
+	for _, fork := range []bool{false, true} {
+		var verr, lerr error
+		p1, _, _ := verifkit.Guard(func() { verr = c.Validate(e.store, e.sim.NextTime(2), fork) })
+		p2, _, _ := verifkit.Guard(func() { lerr = e.store.LockGhostKeys(ao.Keys, ch, fork) })
+		r.Eval()
+		r.Count("displaced_owner_probes", 1)
+		owner, _ := e.store.ReadGhostKeyLock(key)
+		wit := map[string]any{"first_owner": ah.String(), "presenter": ch.String(), "finalization_flag": fork, "rival_finalized": finalized,
+			"validate_error": fmt.Sprint(verr), "lock_error": fmt.Sprint(lerr)}
+		if !p1 && verr == nil {
+			r.Violation("C04|displaced-owner|Validate|key-accepted-for-another-transaction", "a key reserved for a transaction that later lost its input to a rival was accepted by Validate for a different transaction", wit)
+		}
+		if !p2 && lerr == nil {
+			r.Violation("C04|displaced-owner|LockGhostKeys|key-accepted-for-another-transaction", "a key reserved for a transaction that later lost its input to a rival was bound to a different transaction", wit)
+		}
+		if owner == nil || *owner != ah {
+			r.Violation("C04|displaced-owner|binding-changed", "the binding of a reserved key changed after its transaction was displaced", wit)
+		}
+		r.Nontrivial(fmt.Sprintf("displaced|%d|%v|%v", i, fork, finalized))
+	}
+}
+
 func vC04TempDir(t *testing.T) string {
 	const base = "/dev/shm" // memory-backed: the store fsyncs every commit otherwise
 	if fi, err := os.Stat(base); err == nil && fi.IsDir() {
@@ -841,6 +903,7 @@ func TestVerif_C04(t *testing.T) {
 	r.SetRule("real BadgerStore over a simulated ledger; per case a pool of 3..8 output keys and 2..6 signed transfers (own fresh inputs) whose outputs draw 1..9 keys from the pool, " +
 		"overlapping across transactions and (18%) repeated inside one transaction; random Validate / LockGhostKeys (own list, partial, permuted; the three historical hashes and one-bit neighbours) / " +
 		"WriteSnapshot of bodies stored without Validate / reads, sequentially (result and all GHOST records vs the write-once model after each call) and from 2..16 goroutines (porcupine + concurrent reader); " +
+		"plus displaced-owner histories (a transaction reserves its keys, loses its input to a rival on the finalization path, a third transaction presents the key); " +
 		"non-trivial = distinct rejections because of another owner or a repeated key, distinct successful bindings, and distinct concurrent histories in which two owners requested one key with overlapping call intervals")
 	r.Assume("the three historical exception hashes are taken from storage/badger_utxo.go; no transaction with such a hash can be constructed, they are exercised through LockGhostKeys only")
 	r.Assume("the model excepts them only under the finalization flag (as the design does) and expects the existing binding to stay")
@@ -870,6 +933,12 @@ func TestVerif_C04(t *testing.T) {
 	for i := 0; i < nseq && r.Violations() == 0; i++ {
 		e.runSequential(e.newCase(), 40+rng.Intn(40))
 		r.Count("sequential_histories", 1)
+	}
+	// displaced owners: transaction A reserves its output keys at admission, a rival spender of A's input is taken on
+	// the finalization path (A's body is pruned), then another transaction C presents A's key
+	ndisp := r.N(40, 600)
+	for i := 0; i < ndisp && r.Violations() == 0; i++ {
+		e.runDisplaced(i)
 	}
 	r.Note("wall_s_sequential_phase", time.Since(t0).Seconds())
 	t1 := time.Now()
